@@ -3,6 +3,21 @@ import os
 import sys
 
 
+def ensure_deps():
+    """icontract / deal live in <checkout>/.deps (git-ignored).  setup_cmd
+    installs them; a checkout that was not set up installs them here, from
+    the offline wheelhouse."""
+    root = os.path.dirname(os.path.dirname(os.path.abspath(__file__)))
+    deps = os.path.join(root, '.deps')
+    if os.path.isdir(os.path.join(deps, 'icontract')):
+        return
+    import subprocess
+    subprocess.run(['/venv/bin/pip', 'install', '-q', '--no-index',
+                    '--find-links', '/opt/veriftools/wheels', '--target',
+                    deps, 'icontract', 'deal'], check=False,
+                   stdout=subprocess.DEVNULL, stderr=subprocess.DEVNULL)
+
+
 def main():
     ap = argparse.ArgumentParser()
     ap.add_argument('check')
@@ -16,6 +31,7 @@ def main():
     os.environ.setdefault('PYTHONHASHSEED', '0')
     if os.environ.get('MVF_REPO'):
         sys.path.insert(0, os.environ['MVF_REPO'])
+    ensure_deps()
     from mvf import runner
     if a.replay:
         sys.exit(runner.replay(a.replay))
